@@ -56,11 +56,11 @@ def parseUtf16 (bs : Bytes) : Outcome (List Char) :=
   | some c => if c ≠ '\x00' then .err else .ok (trimNul s)
 
 /-- `ReadNullString`: two bytes at a time up to and including the first aligned 00 00.
-    (A final single byte is returned followed by the zero byte of the 2-byte block.) -/
+    (A final single byte is returned as it is — F32: it used to be padded with the zero of the 2-byte block, which turned a lone trailing zero byte into a terminator.) -/
 def readNullString : Bytes → Bytes × Bytes
   | a :: b :: r => if a == 0 && b == 0 then ([0, 0], r) else
       let (x, rest) := readNullString r; (a :: b :: x, rest)
-  | [a] => ([a, 0], [])
+  | [a] => ([a], [])
   | [] => ([], [])
 
 /-- `Efistring.Unmarshal` -/
